@@ -560,6 +560,56 @@ def recatch_program(rnd, leafs=("none", "const")):
     }
 
 
+def overlap_program(rnd):
+    """Scoped overrides with NON-lexical lifetimes in one task: entered A then G (different variables, so the
+    sequential meaning is unambiguous), left A then G - the context that is left is not the most recently entered
+    one - with suspensions and reads in between, next to siblings that read the same variables."""
+    site = [0]
+
+    def item():
+        site[0] += 1
+        return ["leaf", ["item", rnd.randrange(2), "o%d" % site[0]]]
+
+    def reads():
+        return [["read", "sv0"], ["read", "sv1"], ["read", "at0"]]
+
+    kinds = [["ov", "sv0", 700 + rnd.randrange(50)], ["ov", "sv1", 800 + rnd.randrange(50)], ["attr", "at0", 900 + rnd.randrange(50)]]
+    rnd.shuffle(kinds)
+    ca, cg = kinds[0], kinds[1]
+    worker = []
+    if rnd.random() < 0.5:
+        worker += [["yield", item()]]
+    worker += [["ctxopen", ca, "A"]] + reads()
+    if rnd.random() < 0.6:
+        worker += [["yield", item()]] + reads()
+    worker += [["ctxopen", cg, "G"]] + reads() + [["yield", item()]] + reads()
+    worker += [["ctxclose", "A"]] + reads() + [["yield", item()]] + reads()
+    if rnd.random() < 0.5:
+        worker += [["with", kinds[2], [["yield", item()]] + reads()]] + reads()
+    worker += [["ctxclose", "G"]] + reads()
+    if rnd.random() < 0.5:
+        worker += [["yield", item()]] + reads()
+    sib = reads()
+    for _ in range(rnd.randint(2, 4)):
+        sib += [["yield", item()]] + reads()
+    nodes = [
+        {"style": "asynq", "ret": "return", "body": reads() + [["yield", ["list", [["leaf", ["call", "oc1", 1]], ["leaf", ["call", "oc2", 2]]] + ([["leaf", ["call", "oc3", 2]]] if rnd.random() < 0.4 else [])]]] + reads()},
+        {"style": rnd.choice(["asynq", "method", "proxy"]), "ret": "return", "body": worker},
+        {"style": "asynq", "ret": "return", "body": sib},
+    ]
+    if rnd.random() < 0.5:
+        nodes[0]["body"][3][1][1].reverse()
+    return {
+        "nodes": nodes,
+        "root": 0,
+        "shared": [],
+        "kinds": 2,
+        "faults": {},
+        "flush_faults": {},
+        "defaults": {"sv0": "dflt-sv0", "sv1": "dflt-sv1", "at0": "dflt-at0"},
+    }
+
+
 def strip_reads_under_shared(prog):
     """Remove read statements from all nodes reachable from a shared task."""
     seen = set()
